@@ -104,7 +104,7 @@ PROPS["C26"] = {
     "kernels": ["Subscription::test_and_set_publishing_interval_elapsed", "MonitoredItem::tick (elapsed-time test)", "duration_from_ms"],
     "explanation": "now and the stored/client instant are symbolic (second of day, nanosecond) pairs on concrete dates (same day, a day later, a day earlier, "
                    "1601-01-01, 9999-12-31), so every ordering and every sub-day distance is inside each query. Asserted: no panic; interval-elapsed is true exactly when "
-                   "now - last >= interval and never when the clock went backwards; (Subscriptions::expire_stale_publish_requests has harnesses - c26_x_* - that are not registered: no reliable verdict within 30 GB).",
+                   "now - last >= interval whenever now >= last (when the clock went backwards only totality is asserted); (Subscriptions::expire_stale_publish_requests has harnesses - c26_x_* - that are not registered: no reliable verdict within 30 GB).",
     "outside": "queued publish requests (Subscriptions::expire_stale_publish_requests: the BadTimeout-only-after-timeout half of the statement and the client-timestamp panic site, repaired but not re-checkable); symbolic calendar dates (chrono's calendar arithmetic does not solve); symbolic publishing/sampling interval and timeout values (concrete 250 ms / 30 s / 5 s: symbolic f64 multiplication and 64-bit division did not finish); Subscriptions::tick",
     "assumptions": STD_CUTS + ["client timestamps have 100 ns resolution (OPC UA DateTime)"],
     "tiers": {
@@ -227,7 +227,7 @@ PROPS["C32"] = {
     "technique": "Kani/CBMC symbolic execution of UAString::substring / ByteString::substring over every valid 3-byte UTF-8 string / every byte string of up to 4 bytes and every byte range",
     "kernels": ["UAString::substring", "ByteString::substring"],
     "explanation": "Index-range reads of String and ByteString values: for every valid UTF-8 string of exactly 3 bytes (so 1-, 2- and 3-byte characters in every arrangement) and every byte string of 0..4 bytes, "
-                   "and every range min <= max over all usize values: no panic; data is returned exactly when the range starts inside the value (and, for strings, falls on character boundaries), and equals the addressed bytes clipped to the end.",
+                   "and every range min <= max over all usize values: no panic for any string and range; for ASCII strings and for byte strings, data is returned exactly when the range starts inside the value and equals the addressed bytes clipped to the end (for ranges over multi-byte characters only totality is asserted: byte vs character indexing is not prescribed by the statement).",
     "outside": "everything else in the statement: access-level and type checks of the Write service, write-then-read through the address space, array index ranges (Vec<Variant> clone/drop glue: no verdict in 15 min), NumericRange parsing (regex)",
     "assumptions": ["alloc::fmt::format returns an empty String", "strings are exactly 3 bytes of valid UTF-8 (stubs::utf8_valid, proved equal to core::str::from_utf8 by lemma_utf8_valid)"],
     "tiers": tiers("c32", qbounds="string: 3 bytes; byte string: <= 4 bytes; range: all (min, max) with min <= max; unwind 6"),
